@@ -446,7 +446,44 @@ func runEvolution(r *evid.Run, dir string, cs int64) {
 					e.stats["offline-reorgs"]++
 				}
 			}
-			if rg.Intn(3) == 0 {
+			if k := rg.Intn(4); k == 0 {
+				// the best chain is reorganised while the startup rescan is running:
+				// the wallet ignores the disconnects at that stage (by design) and only
+				// learns of the new branch through its BlockConnected notifications,
+				// which replace blocks at heights it has already connected.  Only
+				// blocks without wallet payments are replaced (the transaction store
+				// is not rolled back by an ignored disconnect).
+				tip := int(ch.Height())
+				d := 0
+				for d < 3 && tip-d > int(e.first)+1 {
+					has := false
+					for _, t := range ch.BlockAt(int32(tip - d)).Transactions[1:] {
+						if _, ok := e.pays[t.TxHash()]; ok {
+							has = true
+						}
+					}
+					if has {
+						break
+					}
+					d++
+				}
+				if d > 0 {
+					depth := 1 + rg.Intn(d)
+					newLen := depth + 1 + rg.Intn(2)
+					ch.DuringRescan = func() {
+						ch.DuringRescan = nil
+						discs, _ := ch.ReorgSilent(depth, newLen, map[int][]*wire.MsgTx{})
+						for _, dn := range discs {
+							ch.Send(dn)
+						}
+						for hh := tip - depth + 1; hh <= int(ch.Height()); hh++ {
+							ch.NotifyConnect(hh)
+						}
+					}
+					what += fmt.Sprintf(" + reorg of depth %d (%d new blocks) during the startup rescan", depth, newLen)
+					e.stats["reorgs-during-rescan"]++
+				}
+			} else if k == 1 {
 				// a block arrives while the startup rescan is running
 				ch.DuringRescan = func() {
 					ch.DuringRescan = nil
@@ -483,7 +520,7 @@ func runEvolution(r *evid.Run, dir string, cs int64) {
 
 func main() {
 	r := evid.New(P, "exploration")
-	r.Rule("generated chain evolutions fed to a complete wallet.Wallet through an in-memory chain.Interface (both delivery styles: btcd RelevantTx+BlockConnected, bitcoind/neutrino FilteredBlockConnected+BlockConnected): extensions by 1..5 blocks, reorgs of depth 1..12 within the stored window (new branch equal or longer), wallet payments placed in the losing branch, re-included at other heights of the winning branch or left unconfirmed, unconfirmed payments, repeated BlockConnected(tip), repeated / stale / unknown-hash BlockDisconnected (also re-delivered half-way through a reorg: after all disconnects, or between two instalments of the new branch, where the synced-to block must already be a best-chain block), restarts with the chain unchanged / extended / reorganised while the wallet was stopped, and a block connected while the startup rescan is still running. After EVERY step (deterministic two-no-op barrier) the backend's best chain is the oracle: SyncedTo = tip (height and hash), BlockHash(h) = best-chain hash for every stored height up to the tip, every transaction reported with a block names a best-chain block that contains it, every best-chain payment is reported confirmed, CalculateBalance(1) and (0) equal the backend ledger. Non-trivial = evolution with at least one reorg; distinct = distinct step sequences.")
+	r.Rule("generated chain evolutions fed to a complete wallet.Wallet through an in-memory chain.Interface (both delivery styles: btcd RelevantTx+BlockConnected, bitcoind/neutrino FilteredBlockConnected+BlockConnected): extensions by 1..5 blocks, reorgs of depth 1..12 within the stored window (new branch equal or longer), wallet payments placed in the losing branch, re-included at other heights of the winning branch or left unconfirmed, unconfirmed payments, repeated BlockConnected(tip), repeated / stale / unknown-hash BlockDisconnected (also re-delivered half-way through a reorg: after all disconnects, or between two instalments of the new branch, where the synced-to block must already be a best-chain block), restarts with the chain unchanged / extended / reorganised while the wallet was stopped, a block connected while the startup rescan is still running, and a reorg of payment-free tip blocks (depth 1..3, longer new branch) delivered while the startup rescan is still running. After EVERY step (deterministic two-no-op barrier) the backend's best chain is the oracle: SyncedTo = tip (height and hash), BlockHash(h) = best-chain hash for every stored height up to the tip, every transaction reported with a block names a best-chain block that contains it, every best-chain payment is reported confirmed, CalculateBalance(1) and (0) equal the backend ledger. Non-trivial = evolution with at least one reorg; distinct = distinct step sequences.")
 	r.Trusted("fakechain (harness) as the definition of the best chain")
 	r.Assume("reorgs never reach below the first block the wallet stored (outside 'within the window')", "hashes above the tip are not inspected", "assertions start after RescanFinished (the wallet ignores disconnects before that by design)", "repeated BlockConnected is only sent for the current tip")
 	dir, _ := os.MkdirTemp("", "c15")
